@@ -1005,7 +1005,7 @@ class Application():
         if handler:
             try:
                 req.error_handler = handler
-                return handler(req, error)
+                return to_response(handler(req, error))
 
             except HTTPException as http_err:
                 response = http_err.make_response()
@@ -1143,12 +1143,17 @@ class Application():
             if request is None:
                 request = SimpleRequest(env, self)
 
-            response = http_err.make_response()
-            if not response:
-                status_code = http_err.args[0]
-                kwargs = http_err.args[1]
-                response = to_response(
-                        self.state_from_table(request, status_code, **kwargs))
+            try:
+                response = http_err.make_response()
+                if not response:
+                    status_code = http_err.args[0]
+                    kwargs = http_err.args[1]
+                    response = to_response(
+                        self.state_from_table(request, status_code,
+                                              **kwargs))
+            except BaseException:  # pylint: disable=broad-except
+                log.error("Bad returned value from %s", request.error_handler)
+                response = internal_server_error(request)
         except (ConnectionError, SystemExit) as err:
             log.warning(str(err))
             log.warning('   ***   You should ignore next error   ***')
@@ -1157,7 +1162,7 @@ class Application():
             log.error("Bad returned value from %s", request.uri_handler)
             try:
                 response = to_response(self.state_from_table(request, 500))
-            except Exception:  # pylint: disable=broad-except
+            except BaseException:  # pylint: disable=broad-except
                 log.error("Bad returned value from %s", request.error_handler)
                 response = internal_server_error(request)
 
@@ -1169,7 +1174,7 @@ class Application():
                 response = self.error_from_table(request, err)
                 if not response:
                     response = to_response(self.state_from_table(request, 500))
-            except Exception:  # pylint: disable=broad-except
+            except BaseException:  # pylint: disable=broad-except
                 log.error("Bad returned value from %s", request.error_handler)
                 response = internal_server_error(request)
 
@@ -1180,10 +1185,14 @@ class Application():
                 response = to_response(fun(request, response))
         except BaseException as err:  # pylint: disable=broad-except
             log.error("Handler %s from %s returns invalid data or crashed",
-                      __fn, __fn.__module__)
-            response = self.error_from_table(request, err)
-            if not response:
-                response = to_response(self.state_from_table(request, 500))
+                      __fn, getattr(__fn, '__module__', None))
+            try:
+                response = self.error_from_table(request, err)
+                if not response:
+                    response = to_response(self.state_from_table(request, 500))
+            except BaseException:  # pylint: disable=broad-except
+                log.error("Bad returned value from %s", request.error_handler)
+                response = internal_server_error(request)
 
         skip_sendfile = request.server_software == "uWsgi" and response.ranges
         # need working fileno method
